@@ -29,6 +29,7 @@ def specStep (σ : String → Status) : Op → (String → Status) × Bool
     else (σ, false)
   | .refresh id => (σ, decide (σ id = .active))
   | .persist => (σ, true)
+  | .add ids => (fun x => if x ∈ ids ∧ σ x = .never then .active else σ x, true)
 
 def specRun (σ : String → Status) : List Op → (String → Status)
   | [] => σ
@@ -81,9 +82,56 @@ theorem error_leaves_state (h : String → F) (α : F) (s : State G) (op : Op)
   | revoke ids => simp only [step] at he ⊢; split <;> simp_all [Out.isErr]
   | refresh id => simp only [step] at he ⊢; split <;> simp_all [Out.isErr]
   | persist => rfl
+  | add ids => simp [step, Out.isErr] at he
 
 /-- saving and restoring is the identity on the modelled state -/
 theorem persist_restore (h : String → F) (α : F) (s : State G) : (step h α s .persist).1 = s := rfl
+
+/-- one `add` iteration on the abstract status: only a never-seen identifier changes (to active) -/
+theorem abs_addOne (s : State G) (e : String) (hwf : WF s) :
+    abs (addOne s e) = (fun x => if x = e ∧ abs s x = .never then .active else abs s x) ∧ WF (addOne s e) := by
+  unfold addOne
+  by_cases he : e ∈ s.elements
+  · simp only [List.contains_eq_mem, he, decide_true, if_true]
+    refine ⟨?_, hwf⟩
+    funext x
+    by_cases hx : x = e
+    · subst hx
+      have : abs s x ≠ .never := by
+        unfold abs; by_cases h1 : x ∈ s.active <;> simp [h1, he]
+      simp [this]
+    · simp [hx]
+  · have hna : e ∉ s.active := fun h => he (hwf e h)
+    simp only [List.contains_eq_mem, he, decide_false, Bool.false_eq_true, if_false]
+    refine ⟨?_, ?_⟩
+    · funext x
+      by_cases hx : x = e
+      · subst hx
+        simp [abs, mem_insertIfAbsent, he, hna]
+      · simp [abs, mem_insertIfAbsent, hx]
+    · intro x hx
+      rw [mem_insertIfAbsent] at hx
+      rcases hx with hx | hx
+      · exact List.mem_append_left _ (hwf x hx)
+      · subst hx; simp
+
+theorem abs_addAll (s : State G) (ids : List String) (hwf : WF s) :
+    abs (addAll s ids) = (fun x => if x ∈ ids ∧ abs s x = .never then .active else abs s x)
+      ∧ WF (addAll s ids) := by
+  induction ids generalizing s with
+  | nil => simp [addAll, hwf]
+  | cons e es ih =>
+    obtain ⟨h1, h2⟩ := abs_addOne s e hwf
+    obtain ⟨h3, h4⟩ := ih (addOne s e) h2
+    have hfold : addAll s (e :: es) = addAll (addOne s e) es := rfl
+    rw [hfold]
+    refine ⟨?_, h4⟩
+    rw [h3, h1]
+    funext x
+    by_cases hx : x = e
+    · subst hx
+      by_cases hn : abs s x = .never <;> simp [hn]
+    · by_cases hxs : x ∈ es <;> simp [hx, hxs]
 
 /-- **Refinement.** Each concrete step computes the specification's step on the abstract status map,
 fails exactly when the specification fails, and preserves well-formedness. -/
@@ -155,6 +203,10 @@ theorem step_refines (h : String → F) (α : F) (s : State G) (op : Op) (hwf : 
     · have h1 : id ∉ s.active := fun hh => ha (hm.mp hh)
       simp [step, specStep, h1, ha, Out.isErr]; exact hwf
   | persist => simp [step, specStep, Out.isErr, hwf]
+  | add ids =>
+    obtain ⟨h1, h2⟩ := abs_addAll s ids hwf
+    simp only [step, specStep, Out.isErr, Bool.not_true]
+    exact ⟨h1, trivial, h2⟩
 
 /-- refinement along every history -/
 theorem run_refines (h : String → F) (α : F) (s : State G) (ops : List Op) (hwf : WF s) :
@@ -191,6 +243,7 @@ theorem revoked_absorbing (σ : String → Status) (op : Op) (id : String) (h : 
     · exact h
   | refresh j => exact h
   | persist => exact h
+  | add ids => simp [specStep, h]
 
 /-- … hence along every history -/
 theorem revoked_forever (σ : String → Status) (ops : List Op) (id : String) (h : σ id = .revoked) :
@@ -315,6 +368,23 @@ theorem valueInv_step (h : String → F) (α : F) (V0 : G) (s : State G) (op : O
     · intro x; rw [habs, hmem]; simp [specStep]
     · simp only [step]; split <;> exact hval
   | persist => exact ⟨R, hnd, hmem, hval⟩
+  | add ids =>
+    refine ⟨R, hnd, ?_, ?_⟩
+    · intro x
+      rw [habs, hmem]
+      simp only [specStep]
+      by_cases hx : x ∈ ids ∧ abs s x = .never
+      · simp [hx]
+      · simp [hx]
+    · have hvalue : ∀ (t : State G) (l : List String), (addAll t l).value = t.value := by
+        intro t l
+        induction l generalizing t with
+        | nil => rfl
+        | cons e es ih =>
+          have : addAll t (e :: es) = addAll (addOne t e) es := rfl
+          rw [this, ih]
+          unfold addOne; split <;> rfl
+      simp only [step]; rw [hvalue]; exact hval
 
 /-- the invariant holds in every reachable state -/
 theorem valueInv_reachable (h : String → F) (α : F) (V0 : G) (ops : List Op) :
